@@ -1,5 +1,5 @@
 SPECIFICATION Spec
-CONSTANTS N = 86400 MaxSteps = 6 InvertStartBySecTruncation = FALSE
+CONSTANTS N = 86400 MaxSteps = 6 InvertStartBySecTruncation = FALSE CaptureAtJoinEpoch = FALSE MaxJoinSteps = 4
 CONSTANT Lons <- LonsAll
 CONSTANT Theta0s <- ThetasAll
 CONSTANT StartSecs <- Secs60
